@@ -25,7 +25,7 @@ ASSUMPTIONS = ["a peer that stalls forever mid-message on the single-threaded mu
                "'still accepts / keeps receiving' = within a 10 s watchdog after the last hostile socket is closed",
                "BaseException-only exceptions (SystemExit ...) raised by methods are outside the statement ('Exception subclasses')"]
 REQUIRED_REACH = ["served_during_pipeline_flood", "refused_lingerers_ok", "oneway_calls_served_behind_a_pile", "slow_oneway_leavers_ok", "discovery_responder_ok", "served_while_handshakes_stalled", "abandoned_streams_swept", "injected_yields", "hostile_connections", "witness_calls_ok", "post_attack_handshake_ok", "accounting_restored", "refused_by_full_pool", "error_replies_seen", "stream_guess_phases_ok"]
-SHARD_TIMEOUT = {"quick": 240, "thorough": 3000}
+SHARD_TIMEOUT = {"quick": 480, "thorough": 3000}
 
 
 class Unser(Exception):
